@@ -133,6 +133,9 @@ fn run<const D: usize>(case: &Case, log: &mut CaseLog) {
                         Violation::new(ID, "degenerate_not_rejected", name, format!("{name} returned Ok({v}) for the exactly degenerate simplex {desc}"))
                             .fact("dim", D as u64)
                             .fact("rounding_noise", mag.abs() < 1e-6 * scale.powi(power))
+                            // coordinates of magnitude <= 8: the Gram matrix entries stay below ~1e3 and the
+                            // rounding noise of its factorisation (~1e-13) below the 1e-12 pivot tolerance
+                            .fact("small_coordinates", scale <= 8.0)
                             .fact("repeated_point", !distinct),
                     );
                 }
